@@ -19,3 +19,5 @@
 (declare-fun binlhs (Int) Int)
 (declare-fun binrhs (Int) Int)
 (assert (forall ((c Int) (a Int) (b Int)) (! (and (= (binkind (k_bin c a b)) c) (= (binlhs (k_bin c a b)) a) (= (binrhs (k_bin c a b)) b)) :pattern ((k_bin c a b)))))
+; marker used to request instances of lemmas about integer sequences (a, off, n) at chosen terms
+(declare-fun seqmark ((Array Int Int) Int Int) Bool)
